@@ -458,7 +458,7 @@ Qed.
 
 Lemma add_weakref_notin i : add_weakref i = true -> ~ In "__weakref__" (i_attr_names i).
 Proof.
-  unfold add_weakref. rewrite !andb_true_iff. intros [[[_ _] H] _]. apply negb_true_iff in H. now apply in_names_false.
+  unfold add_weakref. rewrite !andb_true_iff. intros [[_ H] _]. apply negb_true_iff in H. now apply in_names_false.
 Qed.
 
 Lemma count_names_of_field i n : NoDup (i_attr_names i) -> In n (i_attr_names i) -> count_in n (names_of i) = 1.
@@ -619,51 +619,77 @@ Proof.
   - intros (A & B & C). left. repeat split; auto. intros [E _]. contradiction.
 Qed.
 
-(** Instances are weak-referenceable iff weakref_slot is on or a base provides it -
-    provided the class does not itself list [__weakref__] in a [__slots__] of its own. *)
+(** Instances are weak-referenceable iff weakref_slot is on or a base provides it (also
+    when the class body itself lists [__weakref__] in a [__slots__] of its own). *)
 Definition mro_consistent (i : input) (o : output) : Prop :=
   In "__weakref__" (map fst (o_existing o)) -> weakref_inherited i = true.
 
 Theorem weakrefable_iff_l i o :
   create_slots_class i = ROk o -> ~ In "__weakref__" (i_attr_names i) -> ~ In "__weakref__" (i_base_names i) ->
-  ~ In "__weakref__" (i_orig_slots i) -> mro_consistent i o ->
+  mro_consistent i o ->
   weakrefable i o = (i_weakref_slot i || weakref_inherited i).
 Proof.
-  intros H Ha Hb Ho Hm. unfold weakrefable.
+  intros H Ha Hb Hm. unfold weakrefable.
   destruct (weakref_inherited i) eqn:Ei; [now rewrite !orb_true_r|]. rewrite !orb_false_r.
   destruct (in_names "__weakref__" (o_slots o)) eqn:E.
   - apply in_names_iff in E. apply (weakref_iff_l i o H Ha) in E as (A & _). unfold add_weakref in A.
     rewrite !andb_true_iff in A. symmetry. tauto.
   - apply in_names_false in E. destruct (i_weakref_slot i) eqn:Ws; [|reflexivity]. exfalso. apply E.
     apply (weakref_iff_l i o H Ha). repeat split; auto.
-    + unfold add_weakref. rewrite Ws, Ei. cbn. apply in_names_false in Ho, Ha. now rewrite Ho, Ha.
+    + unfold add_weakref. rewrite Ws, Ei. cbn. apply in_names_false in Ha. now rewrite Ha.
     + intros X. specialize (Hm X). congruence.
 Qed.
 
-(** Refuted without the guard: the class lists [__weakref__] in its own [__slots__]
-    and asks for [weakref_slot=True]; its instances cannot be weakly referenced. *)
-Theorem weakref_own_slots_refuted :
-  exists i o, create_slots_class i = ROk o /\ i_weakref_slot i = true /\ weakrefable i o = false.
-Proof.
-  exists {| i_old := 0; i_new := 1; i_ns := [("__slots__", (10, KPlain)); ("__weakref__", (11, KSlotDescr))];
-            i_attr_names := ["x"]; i_base_names := []; i_mro := []; i_weakref_slot := true; i_cache_hash := false;
-            i_orig_slots := ["__weakref__"]; i_wrote_own_setattr := false; i_has_custom_setattr := false;
-            i_store := []; i_fresh := 0 |}.
-  eexists. split; [vm_compute; reflexivity|]. split; reflexivity.
-Qed.
+(** The class body lists [__weakref__] in its own [__slots__] and asks for
+    [weakref_slot=True]: the new class has the weakref slot (was K08.1). *)
+Definition own_weakref_slots_input : input :=
+  {| i_old := 0; i_new := 1; i_ns := [("__slots__", (10, KPlain)); ("__weakref__", (11, KSlotDescr))];
+     i_attr_names := ["x"]; i_base_names := []; i_mro := []; i_weakref_slot := true; i_cache_hash := false;
+     i_orig_slots := ["__weakref__"]; i_wrote_own_setattr := false; i_has_custom_setattr := false;
+     i_store := []; i_fresh := 0 |}.
 
-(** A base whose [__slots__] is a string: the scan iterates its characters and
-    [getattr(base_cls, "a")] raises AttributeError - no class is returned. *)
-Theorem string_slots_base_refuted :
-  exists i, i_mro i = [ {| b_id := 2; b_slots := [("a", None); ("b", None)]; b_weakref := false; b_dict := false;
-                           b_own_setattr := None; b_immediate := true; b_hook := false; b_layer := None |} ]
-            /\ create_slots_class i = RErr.
-Proof.
-  eexists {| i_old := 0; i_new := 1; i_ns := []; i_attr_names := ["x"]; i_base_names := [];
-             i_mro := [ _ ]; i_weakref_slot := true; i_cache_hash := false; i_orig_slots := [];
-             i_wrote_own_setattr := false; i_has_custom_setattr := false; i_store := []; i_fresh := 0 |}.
-  split; [reflexivity | vm_compute; reflexivity].
-Qed.
+Theorem weakref_own_slots_honoured_l :
+  exists o, create_slots_class own_weakref_slots_input = ROk o /\
+            o_slots o = ["x"; "__weakref__"] /\ weakrefable own_weakref_slots_input o = true.
+Proof. eexists. split; [vm_compute; reflexivity|]. split; reflexivity. Qed.
+
+(** Witness of the old defect: the condition as it was before the repair is false here,
+    although nothing in the MRO provides weak references. *)
+Theorem weakref_own_slots_old_rule_refuted :
+  i_weakref_slot own_weakref_slots_input = true /\ weakref_inherited own_weakref_slots_input = false /\
+  add_weakref_old own_weakref_slots_input = false /\ add_weakref own_weakref_slots_input = true.
+Proof. repeat split. Qed.
+
+(** A base whose [__slots__] is a single string contributes exactly that one slot, for
+    any name (was K08.2) ... *)
+Theorem string_slots_single_slot_l n d :
+  dict_of_slots (iter_slots (SlotsStr n (Some d))) [] = Some [(n, d)].
+Proof. reflexivity. Qed.
+
+Definition str_base (n : name) (d : option nat) : base :=
+  {| b_id := 2; b_slots := SlotsStr n d; b_weakref := false; b_dict := false;
+     b_own_setattr := None; b_immediate := true; b_hook := false; b_layer := None |}.
+
+(** ... the class is built, and an own field of that name re-uses the base's slot. *)
+Theorem string_slots_base_builds_l :
+  exists o, create_slots_class
+              {| i_old := 0; i_new := 1; i_ns := []; i_attr_names := ["ab"; "x"]; i_base_names := [];
+                 i_mro := [str_base "ab" (Some 20)]; i_weakref_slot := true; i_cache_hash := false; i_orig_slots := ["ab"];
+                 i_wrote_own_setattr := false; i_has_custom_setattr := false; i_store := []; i_fresh := 0 |} = ROk o /\
+            o_slots o = ["x"; "__weakref__"] /\ lookupS "ab" (o_ns o) = Some (20, KSlotDescr).
+Proof. eexists. split; [vm_compute; reflexivity|]. split; reflexivity. Qed.
+
+(** Witness of the old defect: the scan iterated the characters of the string, and
+    [getattr(base_cls, "a")] raised AttributeError. *)
+Definition iter_slots_old (s : slots_decl) : list (name * option nat) :=
+  match s with
+  | SlotsStr n _ => map (fun c => (String c EmptyString, None)) (list_ascii_of_string n)
+  | SlotsSeq l => l
+  end.
+
+Theorem string_slots_old_scan_refuted :
+  dict_of_slots (iter_slots_old (SlotsStr "ab" (Some 20))) [] = None.
+Proof. reflexivity. Qed.
 
 Example ex_weakref_added :
   exists i o, create_slots_class i = ROk o /\ o_slots o = ["x"; "__weakref__"] /\ weakrefable i o = true.
@@ -723,7 +749,7 @@ Example ex_hook_once :
 Proof.
   exists {| i_old := 0; i_new := 1; i_ns := [("f", (10, KClassM [0]))];
             i_attr_names := []; i_base_names := [];
-            i_mro := [ {| b_id := 2; b_slots := []; b_weakref := false; b_dict := false; b_own_setattr := None;
+            i_mro := [ {| b_id := 2; b_slots := SlotsSeq []; b_weakref := false; b_dict := false; b_own_setattr := None;
                           b_immediate := true; b_hook := true; b_layer := None |} ];
             i_weakref_slot := true; i_cache_hash := false; i_orig_slots := []; i_wrote_own_setattr := false;
             i_has_custom_setattr := false; i_store := [(0, CCls 0)]; i_fresh := 1 |}.
@@ -782,9 +808,9 @@ Theorem setattr_reset_refuted :
             dict_reset i = true /\ slots_reset i = false.
 Proof.
   exists {| i_old := 0; i_new := 1; i_ns := []; i_attr_names := ["a"]; i_base_names := ["a"];
-            i_mro := [ {| b_id := 2; b_slots := []; b_weakref := false; b_dict := false; b_own_setattr := None;
+            i_mro := [ {| b_id := 2; b_slots := SlotsSeq []; b_weakref := false; b_dict := false; b_own_setattr := None;
                           b_immediate := true; b_hook := false; b_layer := None |};
-                       {| b_id := 3; b_slots := []; b_weakref := true; b_dict := false; b_own_setattr := Some true;
+                       {| b_id := 3; b_slots := SlotsSeq []; b_weakref := true; b_dict := false; b_own_setattr := Some true;
                           b_immediate := false; b_hook := false; b_layer := None |} ];
             i_weakref_slot := true; i_cache_hash := false; i_orig_slots := []; i_wrote_own_setattr := false;
             i_has_custom_setattr := false; i_store := []; i_fresh := 0 |}.
@@ -795,7 +821,7 @@ Example ex_reset_agree :
   exists i, reset_guard i = true /\ dict_reset i = true /\ slots_reset i = true.
 Proof.
   exists {| i_old := 0; i_new := 1; i_ns := []; i_attr_names := ["a"]; i_base_names := ["a"];
-            i_mro := [ {| b_id := 3; b_slots := []; b_weakref := true; b_dict := false; b_own_setattr := Some true;
+            i_mro := [ {| b_id := 3; b_slots := SlotsSeq []; b_weakref := true; b_dict := false; b_own_setattr := Some true;
                           b_immediate := true; b_hook := false; b_layer := None |} ];
             i_weakref_slot := true; i_cache_hash := false; i_orig_slots := []; i_wrote_own_setattr := false;
             i_has_custom_setattr := false; i_store := []; i_fresh := 0 |}.
